@@ -27,6 +27,9 @@ CHECKS = {
  "C07": ("differential monitor: library Parse versus an independent reference GeoJSON reader over grammar documents, per-defect structural mutants and byte-level corruptions",
          "Every text is classified by the reference reader strictly by the wording of the property; well-formed texts must be accepted and decode to the same type/nesting/order/x,y, texts with a listed defect must be rejected with an error and no object, anything else is counted as unclassified and not asserted. Known finding F11 is matched narrowly.",
          "Trusted: internal/refjson (encoding/json based).", "6 C07"),
+ "C08": ("metamorphic monitor (oracle-free): the default-options parse is the reference for every other option set; RequireValid judged over the whole parse tree",
+         "Each generated document is parsed under the default options and under index-option, representation-option and RequireValid sets (thresholds 0,1,n,n+1,64; all index kinds); JSON, rectangle, emptiness, validity, point count, Go kind and the predicate answers against 14 probes in both operand orders must not change (kind and point count only for index options); Circle features must stay Circles; RequireValid must reject exactly when some object of the default parse tree reports itself invalid and must return only valid objects.",
+         "Trusted: nothing beyond the default-options parse as reference.", "6 C08"),
  "C09": ("algebraic-law monitor (oracle-free) over ordered pairs of all 12 object kinds, with tracer attribution of failed consequences",
          "Duality, symmetry, contains=>intersects and rect-covers, intersects=>rects-meet, self-containment, and the transparency of Feature / Rect / SimplePoint / leaf objects are asserted literally on every generated pair (144 kind combinations, nested collections, constructor and Parse builds). Circle pairs are asserted only outside a band where its two code paths may legitimately differ (counted inconclusive). Failures are attributed to known findings F4/F5/F15 narrowly or reported.",
          "Trusted: nothing beyond the laws themselves; the tracer hook is used only to attribute.", "6 C09"),
